@@ -208,8 +208,7 @@ def run(case: dict) -> Tuple[List[str], List[str]]:
                     p = op["pkt"]
                     acl = lists[op["list"]]
                     lines += [f"sel {op['list']}", f"check {p['proto']} {p['src']} {p['dst']} {rs.o(p['sport'])} {rs.o(p['dport'])}"]
-                    permitted, rule = acl.is_permitted(base.make_frame(p))
-                    out += ["ok", f"{1 if permitted else 0} {rs.who_of(acl, rule)}"]
+                    out += ["ok", base.verdict(acl, base.make_frame(p))]
                 else:
                     raise ValueError(k)
             try:
